@@ -28,7 +28,7 @@ ASSUMPTIONS = ["NUMBA_BOUNDSCHECK=1 is honoured (checked at start: a deliberatel
                "negative indices wrap in numba; they are covered by the position check, not by bounds checking"]
 TIERS = {"quick": dict(runs=900, budget_s=70, shrink=120),
          "thorough": dict(runs=120000, budget_s=1200, shrink=200)}
-REQUIRED_PROBES = ["near_border", "rk_stage_clipped", "subgrid", "surface", "bottom", "diffusion", "single_level", "depthless_release"]
+REQUIRED_PROBES = ["near_border", "rk_stage_clipped", "rk_stage_clipped_in_both_directions", "subgrid", "surface", "bottom", "diffusion", "single_level", "depthless_release"]
 
 EDGE = gen.profile(
     nsteps=(3, 40), p_reversed=0.2, p_land=0.4, p_subgrid=0.6, p_bathy_var=0.5, N=(1, 8),
@@ -49,7 +49,24 @@ def generate(seed: int, tier: str, idx: int) -> dict:
         xlo, xhi, ylo, yhi = truth.valid_region(sc)
         h = truth.bathymetry(sc)
         m = truth.mask_rho(sc)
+        corner_flow = s.chance(0.3)
+        if corner_flow:
+            # a strong diagonal current: Runge-Kutta stages overshoot two limits of the valid region at once
+            dx, dy = truth.metric(sc)
+            dt = truth.dt_s(sc)
+            keep = {k: v for k, v in sc["flow"].items() if k in ("amp_u", "amp_v", "levels", "scalars", "w")}
+            sc["flow"] = dict(keep, kind="const",
+                              u0=round(s.pick([-1, 1]) * s.uniform(0.7, 0.95) * float(dx.min()) / dt, 6),
+                              v0=round(s.pick([-1, 1]) * s.uniform(0.7, 0.95) * float(dy.min()) / dt, 6))
         for r in sc["release"]["rows"]:
+            if corner_flow and s.chance(0.6):
+                # right in a corner of the valid region
+                r["X"] = round(s.pick([xlo + 1e-3, xhi - 1e-3]), 4)
+                r["Y"] = round(s.pick([ylo + 1e-3, yhi - 1e-3]), 4)
+                if m[int(round(r["Y"])), int(round(r["X"]))]:
+                    hh = float(h[int(round(r["Y"])), int(round(r["X"]))])
+                    r["Z"] = s.pick([0.0, round(hh, 6), round(s.uniform(0, hh), 3)])
+                continue
             if s.chance(0.4):
                 side = s.pick(["w", "e", "s", "n"])
                 if side == "w":
@@ -106,6 +123,7 @@ def execute(sc) -> Result:
             else:
                 res.aborted_foreign += 1
         clipped = 0
+        both = 0
         near = 0
         for c in run.rec.velocity_calls:
             X, Y = c["X"], c["Y"]
@@ -121,9 +139,12 @@ def execute(sc) -> Result:
                 break
             if c["frac"] > 0:
                 clipped += int(((X <= vlo_x) | (X >= vhi_x) | (Y <= vlo_y) | (Y >= vhi_y)).sum())
+                both += int((((X <= vlo_x) | (X >= vhi_x)) & ((Y <= vlo_y) | (Y >= vhi_y))).sum())
             near += int(((X < vlo_x + 1) | (X > vhi_x - 1) | (Y < vlo_y + 1) | (Y > vhi_y - 1)).sum())
         if clipped:
             res.probes["rk_stage_clipped"] += 1
+        if both:
+            res.probes["rk_stage_clipped_in_both_directions"] += 1
         if near:
             res.probes["near_border"] += 1
         res.nontrivial = bool(near or clipped)
